@@ -38,10 +38,13 @@ def run_check(prop, tier, repo=None, write=True, out=print):
         out('ANALYSIS-ERROR property=%s: no rule module' % prop)
         return 2
     try:
-        ctx = Ctx(prop, tier, repo=repo, write=write)
-        mod.run(ctx)
-        if ctx.thorough and hasattr(mod, 'run_thorough'):
-            mod.run_thorough(ctx)
+        from .core.loader import Budget
+        with Budget(int(os.environ.get('SA_CHECK_BUDGET', '3000')),
+                    'the %s analysis of %s' % (tier, prop)):
+            ctx = Ctx(prop, tier, repo=repo, write=write)
+            mod.run(ctx)
+            if ctx.thorough and hasattr(mod, 'run_thorough'):
+                mod.run_thorough(ctx)
         return ctx.report.finish(out=out)
     except AnalysisError as e:
         out('ANALYSIS-ERROR property=%s: %s' % (prop, e))
